@@ -31,6 +31,7 @@ def main():
     if files and files[0].endswith(".ctu-info"):
         sc = plan.get(name, {}).get("*ctu*", {"lines": [], "exit": 0})
         # echo every summary handed over: closes the loop on "summaries reach whole-program analysis"
+        nsum = 0
         for fn in files:
             try:
                 with open(fn, "rb") as f:
@@ -46,8 +47,12 @@ def main():
                 except ValueError:
                     continue
                 if isinstance(o, dict) and "summary" in o and sc.get("echo", True):
+                    nsum += 1
                     msg = "summary-seen " + json.dumps(o, sort_keys=True)
                     out.write((json.dumps({"file": "ctu", "linenr": 1, "column": 1, "severity": "error", "message": msg, "addon": name, "errorId": "echo"}) + "\n").encode())
+        if sc.get("echo", True):
+            # identical summaries of different units echo identically (and cppcheck reports identical findings once): count them
+            out.write((json.dumps({"file": "ctu", "linenr": 2, "column": 1, "severity": "error", "message": "summary-count %d" % nsum, "addon": name, "errorId": "count"}) + "\n").encode())
     else:
         # the dump file name depends on pid / build dir: identify the unit by the dump's own first <file> entry
         base = ""
